@@ -67,12 +67,37 @@ def run_engine(schema, base_url: str, run: dict) -> dict:
     return {"tag": run["tag"], "failures": sorted(failures), "events": n}
 
 
+def neutralise_local_constants() -> bool:
+    """Environment normalisation (harness side, nothing in /repo changes).
+
+    Hypothesis >= 6.131 mixes constants collected from the source of every imported *local* module (= not stdlib, not site-packages)
+    into generated data and re-scans `sys.modules` whenever its length changes.  Observed while building this check:
+      * /repo is an editable install, so schemathesis' own source counts as "local": the pool - hence the data drawn for a fixed seed -
+        changes whenever schemathesis lazily imports one more of its modules (first stateful phase, first failure ...), so a second
+        run in the same process differs.  An installed copy lives in site-packages and is never scanned (Hypothesis hard-codes the
+        same exemption for itself);
+      * the harness's own modules are local as well, and the scan is not thread-safe: with 3 workers a thread intermittently draws
+        from a half-built pool.
+    Both are properties of Hypothesis + this sandbox's layout, not of schemathesis; the children therefore run with an empty pool
+    (no module counts as local), which is what a CLI user without local hook modules gets.
+    """
+    try:
+        from hypothesis.internal.conjecture import providers
+
+        providers.is_local_module_file  # noqa: B018
+    except (ImportError, AttributeError):
+        return False
+    providers.is_local_module_file = lambda path: False
+    return True
+
+
 def main(argv: list[str]) -> int:
     job = json.load(open(argv[1]))
     import schemathesis
 
     from harness.compat import enable_links
 
+    neutralise_local_constants()
     enable_links()  # Hypothesis 6.168 compatibility shim of the harness: without it no OpenAPI link is ever followed (see compat.py)
     out = []
     for run in job["runs"]:
